@@ -418,6 +418,40 @@ def m9(rep):
     rep.floor("places that write #line in the C printer", n, 1)
 
 
+def m10(rep):
+    """The only place where the text of a generated identifier is shortened is the identifier-length option (gc0MultVarId /
+    gc0IdHashInBuf, governed by -Cidlen).  Several sites of genc.c build the same name `<unit>_<id>` independently (the
+    declaration written into the split header, the definition, every use): they agree because each prints both parts whole.  A
+    format that cuts a %s by a precision (`%.30s`, `%.*s`) at one of them makes the header declare one name and the C files
+    use another as soon as -Cidlen shows more of the name than the cut -- the generated C does not compile.  Rule: no
+    printf-style format in the C generator prints a string under a precision."""
+    import re
+    f = common.extract("genc.c", all_trees=True)
+    n = 0
+    bad = []
+    for name, fn in sorted(f.funcs.items()):
+        if "body" not in fn or not fn.get("file", "").endswith("genc.c"):
+            continue
+        for c in common.calls(fn["body"]):
+            for a in c["c"][1:]:
+                a_ = strip(a)
+                if a_ is not None and a_["k"] == "StringLiteral" and "%" in (a_.get("v") or ""):
+                    if not re.search(r"%[-0-9]*(\.[0-9*]+)?l?[sdcuxp]", a_["v"]):
+                        continue
+                    n += 1
+                    if re.search(r"%[-0-9*]*\.[0-9*]+s", a_["v"]):
+                        bad.append((name, c["l"], c.get("callee"), a_["v"]))
+    rep.floor("format strings of the C generator", n, 40)
+    for name, line, callee, fmt in bad:
+        rep.violation("M10", "identifier-text-not-cut-by-format:%s" % name, "genc.c:%d (%s)" % (line, name),
+                      "%s(\"%s\") prints a string under a precision: the name built here is cut at a fixed number of characters while "
+                      "the other sites that build the same name print it whole; with a -Cidlen that shows more than the cut (or 0 = no "
+                      "limit) the split header declares a name the C files never use and the generated C does not compile"
+                      % (callee, fmt))
+    if not bad:
+        rep.ok("M10", "identifier-text-not-cut-by-format:none", sample={"formats": n})
+
+
 def run(tier, only=None):
     rep = common.Report("C16", tier, EXPLANATION)
     f = common.extract("genc.c", all_cfg=True)
@@ -471,6 +505,7 @@ def run(tier, only=None):
     m7(rep)
     m8(rep)
     m9(rep)
+    m10(rep)
     mx = max(ch for ch, _, _ in rows if ch is not None)
     if mx >= bound:
         rep.violation("M3", "table-chars", "genc.c (ccSpecCharIdTable)", "character %d indexes tables of %d elements" % (mx, bound))
